@@ -184,6 +184,11 @@ func specEntryOK(e fs.DirEntry, fsys map[string][]byte) bool {
 //@   requires p.p != nil
 //@   ensures result == p.p.Path()
 
+//@ func (*PanicError).Position
+//@   props C12
+//@   requires p.p != nil
+//@   ensures result.Line == p.p.Position().Line && result.Column == p.p.Position().Column && result.Start == p.p.Position().Start && result.End == p.p.Position().End
+
 var _ = fs.ValidPath
 
 // ---------------------------------------------------------------------------
